@@ -65,6 +65,10 @@ CLAIMED = {
          "(written clause by clause from the specification's resolution rules) on the logged bytes and requires the same value / a "
          "SchemaResolutionError exactly when the rules give no result for the datum at hand.",
          "TLA+ spec (AvroResolve) + TLC trace validation", "3/C08"),
+ "C15": ("V: the text written by json_writer is split into documents, parsed by the standard json module and compared by TLC with AvroJson!JsonEnc "
+         "(union wrapping with full names, ISO-8859-1 bytes, symbols, objects/arrays; numbers by value); json_reader's result on that text is compared "
+         "with Norm (= what the binary decode returns); defaulted top-level keys are deleted from the text and must come back as the schema defaults.",
+         "TLA+ spec (AvroJson, AvroValue!Norm) + TLC trace validation", "3/C15"),
 }
 checks = []
 for p in props:
